@@ -47,10 +47,10 @@
     the model side is proved) and 5.3.2 (FieldsInSetCanMerge / SameResponseShape), hence validate_verdict itself;
     validate_error_located.  These are covered on every run by the correspondence check and the
     Spec oracle only. *)
-From Coq Require Import List NArith.
+From Coq Require Import List NArith Bool.
 From ApiFu Require Import Base.Sexp Vld.Ast Vld.Inspect Vld.InspectProofs Vld.TypeInfoModel Vld.TypeInfoPure Vld.ValidatorModel Vld.ValidSpec
      Vld.Hyps Vld.ProofsCommon Vld.ProofsDirectives Vld.ProofsArguments Vld.ProofsFragDecl Vld.ProofsValues
-     Vld.ProofsCycles Vld.ProofsVarsOrder Vld.ProofsOrder Vld.ProofsOperations Vld.ProofsTotal Vld.Enumerate Vld.ProofsFields Vld.ProofsMemo Vld.ValidatorProofs Vld.ProofsSpreads Vld.ProofsSecondary Vld.ProofsSecondaryAll Vld.ProofsSpreadsSpec Vld.ProofsFieldsConverse Vld.ProofsVarsConverse Vld.ProofsComplete Vld.ProofsCollect Vld.ProofsSpecReach Vld.ProofsVarsSpec Vld.ProofsDepth Vld.ProofsDepthRule Vld.MemoTransfer Vld.ProofsMemoConverse Vld.MemoEquiv Vld.ProofsTypeInfoValues Vld.Witness.
+     Vld.ProofsCycles Vld.ProofsVarsOrder Vld.ProofsOrder Vld.ProofsOperations Vld.ProofsTotal Vld.Enumerate Vld.ProofsFields Vld.ProofsMemo Vld.ValidatorProofs Vld.ProofsSpreads Vld.ProofsSecondary Vld.ProofsSecondaryAll Vld.ProofsSpreadsSpec Vld.ProofsFieldsConverse Vld.ProofsVarsConverse Vld.ProofsComplete Vld.ProofsCollect Vld.ProofsMergeSound Vld.ProofsPossibleFields Vld.ProofsSpecReach Vld.ProofsVarsSpec Vld.ProofsDepth Vld.ProofsDepthRule Vld.MemoTransfer Vld.ProofsMemoConverse Vld.MemoEquiv Vld.ProofsTypeInfoValues Vld.Witness.
 Import ListNotations.
 
 (** ** determinism: acceptance is a function of schema, features and document alone *)
@@ -418,6 +418,86 @@ Theorem C04_subscription_single_root_model : forall A,
    (exists f, InC A ss f) /\ forall f g, InC A ss f -> InC A ss g -> response_name f = response_name g).
 Proof. exact single_key_iff. Qed.
 
+(** ** 5.3.2, soundness: what the overlapping-fields pass guarantees of an accepted document
+    For EVERY selection set [ss] of the document (as NewTypeInfo annotates it) addFieldSelections
+    succeeds, and the map [m] it files the collected fields in — one entry per response key, each field
+    with the parent type of the selection set it is written in — is [MergeOK]: any two fields [x]
+    before [y] under one key
+      - have types of compatible shapes ([ShapeOK]: list / non-null wrappers agree, leaf types are
+        equal, and for composite types the same holds of any two fields under one key of the merged
+        sub-selections, recursively);
+      - have known parent types [pa], [pb]; and when [pa] = [pb] or one of them is not an object type
+        ([may_overlap]) they select the same field name, have identical arguments ([args_check]),
+        and the map of their merged sub-selections is [MergeOK] again.
+    (Two fields under one key whose parents are different object types can never both apply.)
+    [C04_subscription_single_root_model] / [C04_collect_complete] say which fields [m] holds.
+    For the pipeline with the memo the field selections must sit at pairwise distinct positions
+    (the memo identifies a pair of fields by their positions; true of parsed documents, C06). *)
+Theorem C04_accepted_merge_sound : forall pi S F D,
+  order_ok pi -> doc_field_positions_distinct D -> validate_model_memo repaired pi S F D = Done [] ->
+  forall ss, In ss (all_subs (pti_doc (q_unwrap_obj repaired) S F D)) ->
+  exists m v, add_selections repaired (pti_doc (q_unwrap_obj repaired) S F D) [] (Some ss) = COk m v /\
+              MergeOK S (pti_doc (q_unwrap_obj repaired) S F D) m.
+Proof. exact memo_accepted_merge_sound. Qed.
+Theorem C04_accepted_merge_sound_plain : forall pi S F D,
+  order_ok pi -> validate_model repaired pi S F D = Done [] ->
+  forall ss, In ss (all_subs (pti_doc (q_unwrap_obj repaired) S F D)) ->
+  exists m v, add_selections repaired (pti_doc (q_unwrap_obj repaired) S F D) [] (Some ss) = COk m v /\
+              MergeOK S (pti_doc (q_unwrap_obj repaired) S F D) m.
+Proof. exact accepted_merge_sound. Qed.
+(** the two predicates, unfolded once (they are inductive: the recursion goes through the merged
+    sub-selections) *)
+Theorem C04_merge_ok_unfold : forall S A m, MergeOK S A m ->
+  forall k l, In (k, l) m ->
+  ForallOrdPairs (fun x y =>
+    ShapeOK S A (fst3 x) (fst3 y) /\
+    exists pa pb, snd (fst x) = Some pa /\ snd (fst y) = Some pb /\
+      (may_overlap S pa pb = true ->
+       name_eqb (sel_name (fst3 x)) (sel_name (fst3 y)) = true /\
+       args_check repaired (fst3 x) (fst3 y) = MOk /\
+       exists m1 v1 m2 v2, add_selections repaired A [] (sel_sub (fst3 x)) = COk m1 v1 /\
+                           add_selections repaired A m1 (sel_sub (fst3 y)) = COk m2 v2 /\ MergeOK S A m2)) l.
+Proof. exact merge_ok_unfold. Qed.
+Theorem C04_shape_ok_unfold : forall S A X Y, ShapeOK S A X Y ->
+  exists tX tY a b, shape_type X = inl tX /\ shape_type Y = inl tY /\ shape_loop tX tY = inl (a, b) /\
+    (is_leaf_sty S a || is_leaf_sty S b = true -> sty_eqb a b = true) /\
+    (is_leaf_sty S a || is_leaf_sty S b = false ->
+     exists m1 v1 m2 v2, add_selections repaired A [] (sel_sub X) = COk m1 v1 /\ add_selections repaired A m1 (sel_sub Y) = COk m2 v2 /\
+                         forall k l, In (k, l) m2 -> ForallOrdPairs (fun x y => ShapeOK S A (fst3 x) (fst3 y)) l).
+Proof. exact shape_ok_unfold. Qed.
+
+(** ** conjunct (f) of C01's doc_ok: defined on the parent type => defined on every possible object type
+    [possible S F p] (the Spec's GetPossibleTypes): [p] itself for an object type, the visible object
+    types that declare the interface, the members of the union.  [schema_ifaces_ok] (decidable,
+    evaluated on every generated schema): an object type has the fields of the interfaces it declares,
+    requiring no more features than the interface's field (ObjectType.satisfyInterface), and union
+    members are object types. *)
+Theorem C04_defined_on_possible : forall S F,
+  schema_impls_ok S = true -> schema_ifaces_ok S = true ->
+  forall p n d, field_def_of S F p n = Some d -> forall x, In x (possible S F p) -> field_def_of S F x n <> None.
+Proof. exact defined_on_possible. Qed.
+Theorem C04_fields_defined_on_possible : forall S F D,
+  schema_impls_ok S = true -> schema_ifaces_ok S = true -> fields_defined S F D = true ->
+  forall o, In o (all_fields S F D) ->
+  forall p, fo_parent o = Some p ->
+  match fo_field o with
+  | SField _ _ n _ _ _ _ => forall x, In x (possible S F p) -> field_def_of S F x n <> None
+  | _ => True
+  end.
+Proof. exact fields_defined_on_possible. Qed.
+
+(** ** acyclicity in the shape of C01's [acyclic_frags]
+    [spread_chain D ss l]: l = n1 :: n2 :: ... is a path of the spread graph that starts in [ss] — n1
+    is spread somewhere in [ss] (at any depth), n2 in the body of n1, ..., every fragment defined
+    ([fragment]: the first definition of the name).  [acyclic_spreads D]: no defined fragment occurs
+    in a chain that starts in its own body.  Stated on the document as written. *)
+Theorem C04_spreads_silent_acyclic_chains : forall pi S F D,
+  order_ok pi -> validate_model_memo repaired pi S F D = Done [] ->
+  forall n d l, fragment D n = Some d -> spread_chain D (def_sub d) l -> ~ In n l.
+Proof. exact memo_accepted_acyclic_spreads. Qed.
+Theorem C04_no_cycle_acyclic_chains : forall D, valid_5_5_2_2 D = true -> acyclic_spreads D.
+Proof. exact no_cycle_acyclic_spreads. Qed.
+
 (** ** rule groups against sections of the specification *)
 (** 5.7.1 – 5.7.3 (directives defined, in valid locations, unique per location): no hypothesis *)
 Theorem C04_rule_directives_iff : forall S F D,
@@ -609,6 +689,14 @@ Print Assumptions C04_verdict_up_to_two_rules_partial.
 Print Assumptions C04_collect_complete.
 Print Assumptions C04_collect_sound.
 Print Assumptions C04_subscription_single_root_model.
+Print Assumptions C04_accepted_merge_sound.
+Print Assumptions C04_accepted_merge_sound_plain.
+Print Assumptions C04_merge_ok_unfold.
+Print Assumptions C04_shape_ok_unfold.
+Print Assumptions C04_defined_on_possible.
+Print Assumptions C04_fields_defined_on_possible.
+Print Assumptions C04_spreads_silent_acyclic_chains.
+Print Assumptions C04_no_cycle_acyclic_chains.
 Print Assumptions C04_rule_directives_iff.
 Print Assumptions C04_rule_fragment_declarations_iff.
 Print Assumptions C04_rule_operations_iff_partial.
